@@ -61,6 +61,20 @@ def allInOneInfo (n : Nat) (fullres : InfoM) (ty enc : Option String) : InfoM :=
 def stepwiseInfo (reparse : InfoM → InfoM) (n : Nat) (fullres : InfoM) (ty enc : Option String) : InfoM :=
   fillScales n (setParams (reparse fullres) ty enc)
 
+/-! ### downscaler selection -/
+
+/-- `downscaling.get_downscaler`: "auto" is resolved from the info's `type` -/
+def resolveMethod (method : String) (infoType : Option String) : String :=
+  if method = "auto" then (if infoType = some "image" then "average" else "stride") else method
+
+/-- the all-in-one command creates its downscaler from the info AFTER `set_info_params` -/
+def allInOneMethod (method : String) (fullres : InfoM) (ty enc : Option String) : String :=
+  resolveMethod method (setParams fullres ty enc).type
+
+/-- `compute-scales` reads the info that `generate-scales-info` wrote -/
+def stepwiseMethod (reparse : InfoM → InfoM) (n : Nat) (method : String) (fullres : InfoM) (ty enc : Option String) : String :=
+  resolveMethod method (reparse (stepwiseInfo reparse n fullres ty enc)).type
+
 /-! ### exit status -/
 
 /-- a command runs its steps in order; the first failing step aborts it with a non-zero status -/
